@@ -245,3 +245,15 @@ def lower(s):
     if smt():
         return CTX.engine.str_lower(CTX, s)
     return s.lower()
+
+
+def AS(obj, clsname: str):
+    """View an object as an instance of a subclass (used under an ISINST guard)."""
+    if smt():
+        if isinstance(obj, V.Obj):
+            cls = CTX.engine.class_by_name(clsname)
+            if obj.fields is not None:
+                return obj
+            return V.Obj(cls, False, obj.ref, None, CTX)
+        return obj
+    return obj
